@@ -18,7 +18,7 @@ DESIGN_REF = "§5 C10"
 RULE = "case = wait-family program + responder script (+ resume point); distinct = tick-order signature hash; non-trivial = >=1 wait returned or timed out"
 REQUIRED_REACH = ["waiter_eval", "wait_result_eval", "wait_timeout_seen", "waiter_event_eval", "resumed_case", "resumed_with_open_waiter", "double_cycle"]
 ASSUMPTIONS = ["programs never fail after a successful wait, so every wait_for_event return is a completion"]
-FAMILIES = [("wait", 1)]
+FAMILIES = [("wait", 4), ("waitsink", 1)]
 
 
 def plan(tier, seed):
@@ -43,7 +43,7 @@ def _resume(case, tr0, acc):
     rnd = random.Random(case["seed"] ^ 0x5EED)
     if rnd.random() < 0.4 or len(tr0.ticks) < 4:
         return
-    if any(a.get("k") == "wait" and a.get("wid", 0) is None for s in case["spec"]["steps"] for a in s["acts"]):
+    if case["spec"].get("family") == "waitsink" or any(a.get("k") == "wait" and a.get("wid", 0) is None for s in case["spec"]["steps"] for a in s["acts"]):
         # engine-derived waiter ids are a function of the requirements: a resumed run re-executes the fan-out step, which
         # legitimately produces a second wait with the same requirements (= the same waiter, by design); not checkable per invocation
         acc.note("resume_phase_skipped_for_engine_derived_waiter_ids")
